@@ -1081,6 +1081,31 @@ func ConcScenarios(tier string) []Conc {
 	add(Conc{Name: "status/3x1+query", Tree: Leaf(KStatus), Threads: three, Queries: 1, Preempt: pb, Heavy: true})
 	add(Conc{Name: "failure/2x2+query+reset", Tree: Leaf(KFailure), Prime: []Msg{unmet}, Threads: twoTwo, Queries: 1, Reset: true, Preempt: 2, Heavy: true})
 
+	// ---- result aliasing: a query result must not share storage with a verifier's list ----
+	// The first verifier of a group (or the else branch of a filter, which is consulted first) holds n
+	// failures with n below the capacity of its slice (3 of 4, 5/6/7 of 8), the next verifier holds one; the
+	// query runs concurrently with traffic that fails the first verifier again. A result that aliases the
+	// first verifier's backing array loses the second verifier's failure to the new one.
+	gm := Group(Leaf(KFailure), Leaf(KMethod))
+	gmu := Group(Leaf(KFailure), Leaf(KMethod), Leaf(KURL))
+	fmf := FilterTE(Leaf(KMethod), Leaf(KFailure)).Number()
+	primeN := func(n int, quiet, last Msg) []Msg {
+		var p []Msg
+		for i := 0; i < n-1; i++ {
+			p = append(p, quiet)
+		}
+		return append(p, last)
+	}
+	metM := Msg{Met: bits(KMethod)}
+	metMU := Msg{Met: bits(KMethod, KURL)}
+	for _, n := range []int{3, 5, 6, 7} {
+		heavy := n == 5 || n == 6
+		add(Conc{Name: fmt.Sprintf("group(failure,method)/prime%d+1x1req+query", n), Tree: gm, Prime: primeN(n, metM, unmet), Threads: [][]Msg{{metM}}, ReqOnly: true, Queries: 1, Preempt: 2, Heavy: heavy})
+	}
+	add(Conc{Name: "group(failure,method,url)/prime5+2x1req+query", Tree: gmu, Prime: primeN(5, metMU, unmet), Threads: [][]Msg{{metMU}, {metMU}}, ReqOnly: true, Queries: 1, Preempt: 2})
+	add(Conc{Name: "filterTE(method,failure)/prime3+1x1req+query", Tree: fmf, Prime: []Msg{unmet, unmet, unmet, {Sel: 1 << uint(fmf.ID)}}, Threads: one, ReqOnly: true, Queries: 1, Preempt: 2})
+	add(Conc{Name: "group(failure,method)/prime3+1x1req+query/all", Tree: gm, Prime: primeN(3, metM, unmet), Threads: [][]Msg{{metM}}, ReqOnly: true, Queries: 1, Heavy: true})
+
 	// ---- thorough tier: complete explorations of mid-sized triples ----
 	add(Conc{Name: "failure/2x1req+query", Tree: Leaf(KFailure), Threads: two, ReqOnly: true, Queries: 1, Heavy: true})
 	add(Conc{Name: "failure/1x1+query+reset", Tree: Leaf(KFailure), Prime: []Msg{unmet}, Threads: one, Queries: 1, Reset: true, Heavy: true})
